@@ -396,9 +396,16 @@ func (e *Enc) epochGet(ep *Epoch, key string, s Sort) T {
 	if t, ok := ep.vals[key]; ok {
 		return t
 	}
+	if strings.HasPrefix(key, "!called|") && ep.parts == nil {
+		// ghost call flags start out false (and are carried across total havocs by havocAll)
+		return False
+	}
 	var t T
 	if ep.parts == nil {
+		qd := e.quantDepth
+		e.quantDepth = 0 // heap components are global constants even when first touched under a quantifier
 		t = e.declare(s, fmt.Sprintf("H%d_%s", ep.id, sanitize(key)))
+		e.quantDepth = qd
 		if key == "!top" {
 			e.emit("(assert\t(< 0 " + t.E + "))")
 		}
